@@ -1,6 +1,7 @@
 """C06 - a double-beta configuration is accepted iff the reference rules allow it."""
 import os
 import re
+from fractions import Fraction
 
 from .. import astu, docs, genbb, ir, project, tvcheck
 from ..framework import Report, where
@@ -97,14 +98,29 @@ def _ga_rules(rep, prog):
     procs = _enum(prog, 'bxdecay0::dbd_gA::process_type')
     want = {modes['DBDMODE_2NUBB_GA_G0']: procs['PROCESS_G0'], modes['DBDMODE_2NUBB_GA_G2']: procs['PROCESS_G2'],
             modes['DBDMODE_2NUBB_GA_G22']: procs['PROCESS_G22'], modes['DBDMODE_2NUBB_GA_G4']: procs['PROCESS_G4']}
+    # mode -> process by constant propagation of `_decay_dbd_mode_ = m` through _init_ (file-local helpers expanded): whatever the
+    # shape of the selection (if chain, switch, helper function), the residual program calls set_process with one constant
+    from .. import cfg as cfgm, cpp2ir, sccp, tv, tvrun
+    sigs = cpp2ir.build_sigs(prog)
+    tree, lo = cpp2ir.lower_function(fn, sigs)
+    helpers = {f['name']: f for f in prog.functions.values() if f.get('file') == fn.get('file') and not f.get('method') and f is not fn}
+    if helpers:
+        tree = tvrun.inline_helpers(tree, helpers, sigs)
     got = {}
-    for b in F.nodes(kind='branch'):
-        c = b.stmt[1]
-        if c[0] == 'op' and c[1] == '==' and cppflow.mentions(c, '_decay_dbd_mode_'):
-            lit = [x for x in c[2:] if x[0] == 'num']
-            t = F.g.nodes[b.succ[0]]
-            if lit and t.kind == 'call' and t.stmt[1] == 'dbd_gA::set_process' and t.stmt[2][-1][0] == 'num':
-                got[int(lit[0][1])] = (int(t.stmt[2][-1][1]), b.line)
+    for m in sorted(want):
+        g = cfgm.compact(cfgm.build(list(tree)), drop=('nop', 'io'))
+
+        def fix(x, _m=m):
+            if x[0] == 'fld' and x[2] == '_decay_dbd_mode_':
+                return ('num', Fraction(_m), 'i')
+            return x
+        for n in g.nodes:
+            tv._rewrite_node(n, lambda e: ir.map_expr(fix, e))
+        r = sccp.specialise(g, {}, sccp.Evaluator('c', {}), lambda c, p_: tv._maywrite('c', c, p_))
+        sp = [n for n in r.nodes if n.kind == 'call' and n.stmt[1] == 'dbd_gA::set_process']
+        vals = {int(n.stmt[2][-1][1]) for n in sp if n.stmt[2][-1][0] == 'num'}
+        if len(sp) >= 1 and len(vals) == 1 and all(n.stmt[2][-1][0] == 'num' for n in sp):
+            got[m] = (vals.pop(), sp[0].line)
     for m, p in sorted(want.items()):
         g = got.get(m)
         rep.add('GA.route', 'mode%d' % m, where(fn, g[1] if g else fn['l']),
